@@ -245,6 +245,10 @@ type run struct {
 // mapHeld: a scenario goroutine is parked in its first contact, i.e. holds (in the original code) the map mutex;
 // any call of the controller into the object would wait for it.
 func (r *run) mapHeld() bool {
+	// a goroutine last seen blocked may meanwhile have been given the map mutex and be on its way to that gate
+	if len(r.blk) > 0 {
+		return true
+	}
 	for t := 1; t <= nThreads; t++ {
 		if parked, at := r.ctl.Parked(t); parked && at.Point == "retrieve_traffic" {
 			return true
@@ -329,35 +333,87 @@ func (r *run) emit(ev kit.Ev, flush bool) error {
 		}
 	}
 	ev["idle"] = !r.ctl.AnyRunning()
-	ev["probe"] = [][]bool{}
-	if !r.ctl.AnyRunning() {
-		ev["probe"] = r.probe()
+	if _, ok := ev["probe"]; !ok {
+		ev["probe"] = [][]bool{}
 	}
 	r.out.Emit(ev)
 	return nil
 }
 
+// probeIfIdle: when no call is in flight (and every step so far has been logged) the balances are probed.
+func (r *run) probeIfIdle() error {
+	if r.ctl.AnyRunning() {
+		return nil
+	}
+	ev := kit.Ev{"op": "probe", "probe": r.probe()}
+	r.fields(ev, 0, sched.Status{Kind: "none"})
+	return r.emit(ev, false)
+}
+
 // after a goroutine has returned, goroutines that were blocked on its lock move on
-func (r *run) sweep() error {
+// settle logs the step of the acting goroutine (ev == nil: none) together with what the goroutines that were
+// blocked have done meanwhile, in an order that is a real order of their sections:
+//  1. the acting goroutine, if it has returned (it unlocked before anybody it was blocking went on);
+//  2. goroutines found returned (had one of them run after a goroutine that is now parked inside the peer
+//     lock, it would still be blocked);
+//  3. the acting goroutine, if it is parked at a gate;
+//  4. goroutines found parked at a gate.
+func (r *run) settle(ev kit.Ev, acting int, st sched.Status) error {
+	type seen struct {
+		ev  kit.Ev
+		t   int
+		ret bool
+	}
+	var rets, gates []seen
+	anyRet := false
 	for t := 1; t <= nThreads; t++ {
-		if !r.blk[t] {
+		if !r.blk[t] || t == acting {
 			continue
 		}
 		s := r.ctl.Wait(t)
 		if s.Kind == "blocked" {
 			continue
 		}
-		ev := kit.Ev{"op": "grant"}
-		ret := r.fields(ev, t, s)
-		if err := r.emit(ev, ret && r.cur[t].Kind == "credit"); err != nil {
+		e := kit.Ev{"op": "grant"}
+		if r.fields(e, t, s) {
+			rets = append(rets, seen{e, t, true})
+			anyRet = true
+		} else {
+			gates = append(gates, seen{e, t, false})
+		}
+	}
+	out := func(x seen) error { return r.emit(x.ev, x.ret && r.cur[x.t].Kind == "credit") }
+	actRet := false
+	if ev != nil {
+		actRet = r.fields(ev, acting, st)
+		if actRet {
+			if err := out(seen{ev, acting, true}); err != nil {
+				return err
+			}
+		}
+	}
+	for _, x := range rets {
+		if err := out(x); err != nil {
 			return err
 		}
-		if ret {
-			return r.sweep()
+	}
+	if ev != nil && !actRet {
+		if err := out(seen{ev, acting, false}); err != nil {
+			return err
 		}
+	}
+	for _, x := range gates {
+		if err := out(x); err != nil {
+			return err
+		}
+	}
+	if anyRet || actRet {
+		return r.settle(nil, 0, sched.Status{}) // a return may have unblocked somebody
 	}
 	return nil
 }
+
+func (r *run) sweep() error { return r.settle(nil, 0, sched.Status{}) }
 
 func (r *run) release(t int, drain bool) error {
 	parked, at := r.ctl.Parked(t)
@@ -377,16 +433,8 @@ func (r *run) release(t int, drain bool) error {
 		val = int64(c.Avail)
 	}
 	r.ctl.Release(t, val, nil)
-	s := r.ctl.Wait(t)
-	ret := r.fields(ev, t, s)
 	ev["from"] = at.Point
-	if err := r.emit(ev, ret && c.Kind == "credit"); err != nil {
-		return err
-	}
-	if ret {
-		return r.sweep()
-	}
-	return nil
+	return r.settle(ev, t, r.ctl.Wait(t))
 }
 
 func runForced(sc kit.Scenario, out *kit.Out) error {
@@ -404,6 +452,10 @@ func runForced(sc kit.Scenario, out *kit.Out) error {
 	out.Begin(sc.Scn, kit.Ev{"mode": "forced", "thr": thr, "tol": tol, "fresh": r.fresh, "init": []int64{st.init[1], st.init[2]}, "probe": r.probe()})
 	for _, op := range sc.Ops {
 		t := kit.Int(op, "t")
+		// goroutines that were blocked may have moved on since they were last looked at
+		if err := r.sweep(); err != nil {
+			return err
+		}
 		switch kit.Str(op, "op") {
 		case "call":
 			// the goroutine is still in its previous call (the code went further than the behaviour expected):
@@ -427,15 +479,8 @@ func runForced(sc kit.Scenario, out *kit.Out) error {
 			r.cur[t] = c
 			r.touched[c.P] = true
 			ctl.Start(t, func() interface{} { return c.run(acc) })
-			ev := kit.Ev{"op": "call"}
-			ret := r.fields(ev, t, ctl.Wait(t))
-			if err := r.emit(ev, ret && c.Kind == "credit"); err != nil {
+			if err := r.settle(kit.Ev{"op": "call"}, t, ctl.Wait(t)); err != nil {
 				return err
-			}
-			if ret {
-				if err := r.sweep(); err != nil {
-					return err
-				}
 			}
 		case "release":
 			if err := r.release(t, false); err != nil {
@@ -448,6 +493,9 @@ func runForced(sc kit.Scenario, out *kit.Out) error {
 		default:
 			return fmt.Errorf("unknown op %v", op["op"])
 		}
+		if err := r.probeIfIdle(); err != nil {
+			return err
+		}
 	}
 	// drain: let every call finish (lowest goroutine first), so the scenario ends with a probe
 	for guard := 0; ctl.AnyRunning() && guard < 50; guard++ {
@@ -455,6 +503,9 @@ func runForced(sc kit.Scenario, out *kit.Out) error {
 		for t := 1; t <= nThreads; t++ {
 			if parked, _ := ctl.Parked(t); parked {
 				if err := r.release(t, true); err != nil {
+					return err
+				}
+				if err := r.probeIfIdle(); err != nil {
 					return err
 				}
 				progressed = true
@@ -598,6 +649,7 @@ func main() {
 	kit.Main(func(scs []kit.Scenario, out *kit.Out) error {
 		// every scenario leaves the (unstoppable) settle goroutine of its Accounting behind, and recognising a
 		// blocked goroutine dumps all goroutines: large runs are split over child processes of this binary
+		settle.ChunkSize = 80 // the cost of recognising a blocked goroutine grows with the goroutines left behind
 		if settle.ShouldChunk(scs) {
 			return settle.Chunked(scs, out)
 		}
